@@ -23,7 +23,8 @@ DIMS = [
  ("ret", ["none", "int", "mod.T", "List[int]", "Generator[int, None, None]", "Iterator[int]", "int | None", '"Fwd"', "Dict[str, List[int]]", "Generator[Dict[str, int], None, None]"]),
  ("doc", ["none", "one-line", "multi-indented", "blank-first-last", "raw", "triple-single", "not-first-statement", "non-ascii", "tab-indented", "whitespace-only-line-shorter-than-indent", "whitespace-only-line-longer-than-indent", "second-paragraph-deeper", "trailing-spaces-on-lines"]),
  ("style", ["decorator", "assignment"]),
- ("usage", ["test-fn", "test-method", "usefixtures-fn", "usefixtures-class", "mark-import", "pytestmark-call", "pytestmark-list", "pytestmark-tuple", "pytestmark-annotated", "indirect-true", "indirect-list", "parametrize-no-indirect", "helper-fn", "in-string-and-comment", "async-test", "kwonly-test"]),
+ ("usage", ["test-fn", "test-method", "usefixtures-fn", "usefixtures-class", "mark-import", "pytestmark-call", "pytestmark-list", "pytestmark-tuple", "pytestmark-annotated", "indirect-true", "indirect-list", "parametrize-no-indirect", "helper-fn", "in-string-and-comment", "async-test", "kwonly-test",
+            "indirect-list-name-after-comma-space", "indirect-true-trailing-comma", "indirect-true-argnames-tuple", "indirect-tuple-argnames-list", "indirect-true-argnames-keyword"]),
 ]
 
 PARAMS = ["", "dep_a", "dep_a, dep_b, dep_c", "dep_a, /, dep_b", "dep_a, *, dep_b", "dep_a, dep_b=3", 'dep_a: int, dep_b: "T" = None', "dep_a, *args, **kwargs", "request, dep_a"]
@@ -136,6 +137,16 @@ def build(a):
         L += ['@pytest.mark.parametrize("fx_name,second_fx", [(1, 2)], indirect=["fx_name"])', "def test_q(fx_name, second_fx):", "    pass"]
     elif u == 11:
         L += ['@pytest.mark.parametrize("val", [1, 2])', "def test_r(fx_name, val):", "    pass"]
+    elif u == 16:
+        L += ['@pytest.mark.parametrize("val, fx_name", [(1, 2)], indirect=["fx_name"])', "def test_s(val, fx_name):", "    pass"]
+    elif u == 17:
+        L += ['@pytest.mark.parametrize("fx_name,", [(1,)], indirect=True)', "def test_t(fx_name):", "    pass"]
+    elif u == 18:
+        L += ['@pytest.mark.parametrize(("fx_name", "second_fx"), [(1, 2)], indirect=True)', "def test_u(fx_name, second_fx):", "    pass"]
+    elif u == 19:
+        L += ['@pytest.mark.parametrize(["fx_name", "second_fx"], [(1, 2)], indirect=("fx_name",))', "def test_v(fx_name, second_fx):", "    pass"]
+    elif u == 20:
+        L += ['@pytest.mark.parametrize(argnames="fx_name", argvalues=[1], indirect=True)', "def test_w(fx_name):", "    pass"]
     elif u == 12:
         L += ["def helper(fx_name):", "    return fx_name", "", "class Plain2:", "    def method(self, fx_name):", "        pass"]
     elif u == 13:
